@@ -286,46 +286,51 @@ def rule_r2(ctx: Ctx, a: Automaton) -> None:
 
 
 def rule_r4(ctx: Ctx) -> None:
-    repo = ctx.repo
+    """what the builder hands to the model's constructors, from the builder driven through its public interface (builder_common)"""
+    from . import builder_common as B
+
     ctx.rule("C03.R4", "the composite receives the builder's attributes and doc and the definition's deprecation flag; a service pairs (request, response) in that order", min_instances=3)
     b = ctx.cls("_data_type_builder.DataTypeBuilder")
-    mk = b.methods["_make_composite"]
-    calls = [c for c in calls_in(mk.node) if norm(c.func) == "ty"]
-    good = len(calls) == 1
-    if good:
-        kw = {k.arg: norm(k.value) for k in calls[0].keywords}
-        good = kw.get("attributes") == "builder.attributes" and kw.get("doc") == "builder.doc" and kw.get("deprecated") == "deprecated"
-    ctx.check(good, mk.short, "ty(attributes=builder.attributes, doc=builder.doc, deprecated=deprecated, ...)", "the model's attributes and header comment are those collected by the schema builder", mk.where())
-    fin = b.methods["finalize"]
-    mk_calls = [c for c in calls_in(fin.node) if isinstance(c.func, ast.Attribute) and c.func.attr == "_make_composite"]
-    dep_ok = bool(mk_calls) and all(norm(kwarg(c, "deprecated") or ast.Constant(value=None)) == "self._is_deprecated" for c in mk_calls)
-    ctx.check(dep_ok and len(mk_calls) == 3, fin.short, "%d composites, deprecated=self._is_deprecated" % len(mk_calls), "@deprecated marks every part of the definition", fin.where())
-    # request = first schema, response = second
-    unpack = [st for st in walk_no_nested(fin.node) if isinstance(st, ast.Assign) and isinstance(st.targets[0], ast.Tuple) and norm(st.value) == "self._structs" and len(st.targets[0].elts) == 2]
-    svc = [c for c in calls_in(fin.node) if (dotted(c.func) or "").endswith("ServiceType")]
-    good = len(unpack) == 1 and len(svc) == 1
-    if good:
-        rq, rs = [norm(t) for t in unpack[0].targets[0].elts]
-        req_call = [c for c in mk_calls if norm(kwarg(c, "builder")) == rq]
-        rsp_call = [c for c in mk_calls if norm(kwarg(c, "builder")) == rs]
-        assigned = {norm(st.targets[0]): st.value for st in walk_no_nested(fin.node) if isinstance(st, ast.Assign) and isinstance(st.value, ast.Call) and st.value in mk_calls}
-        req_var = [k for k, v in assigned.items() if v in req_call]
-        rsp_var = [k for k, v in assigned.items() if v in rsp_call]
-        kw = {k.arg: norm(k.value) for k in svc[0].keywords}
-        good = len(req_var) == 1 and len(rsp_var) == 1 and kw.get("request") == req_var[0] and kw.get("response") == rsp_var[0]
-        if good:
-            good = "Request" in norm(kwarg(req_call[0], "name")) and "Response" in norm(kwarg(rsp_call[0], "name"))
-    ctx.check(good, fin.short, "ServiceType(request=<first schema>, response=<second schema>)", "the part before `---` is the request, the part after it the response", fin.where())
-    dsb = ctx.cls("_data_schema_builder.DataSchemaBuilder")
-    from ..regions import trivial_property_expr
-
-    e = trivial_property_expr(repo, dsb, "doc")
-    sc = dsb.methods.get("set_comment")
-    stores = [norm(st.value) for st in walk_no_nested(sc.node) if isinstance(st, ast.Assign) and norm(st.targets[0]) == "self._doc"] if sc else []
-    ctx.check(e is not None and norm(e) == "self._doc" and stores == [sc.params[1]] if sc else False, dsb.short + ".doc", "doc <- set_comment(comment)", "the header comment becomes the schema's doc", dsb.module.relpath, nontrivial=False)
-    hc = b.methods.get("on_header_comment")
-    good = hc is not None and any(norm(c) == "self._structs[-1].set_comment(%s)" % hc.params[1] for c in calls_in(hc.node))
-    ctx.check(good, b.short + ".on_header_comment", "sets the doc of the current schema", "the header comment of the request / response goes to its own schema", b.module.relpath, nontrivial=False)
+    fin = b.methods.get("finalize")
+    if fin is None:
+        raise AnalysisError("anchor DataTypeBuilder.finalize missing")
+    bad_msg, bad_dep, bad_svc, bad_doc = [], [], [], []
+    for deprecated in (False, True):
+        pre = [("on_directive", (1, "deprecated", None))] if deprecated else []
+        # a message
+        r = B.run_builder(ctx, [("on_header_comment", ("DOC-A",))] + pre + [("on_directive", (4, "sealed", None))], allow_unregulated=True)
+        ctx.count()
+        leafs = [kw for k, kw in r.ctor_log if k in ("StructureType", "UnionType")]
+        if r.raised or len(leafs) != 1:
+            raise AnalysisError("finalize of a message: %s" % (r.raised or "%d composite constructions" % len(leafs)))
+        if leafs[0].get("doc") != "DOC-A":
+            bad_doc.append({"message doc": leafs[0].get("doc")})
+        if leafs[0].get("attributes") != [] or leafs[0].get("deprecated") is not deprecated:
+            bad_msg.append({"deprecated directive": deprecated, "passed": {k: leafs[0].get(k) for k in ("attributes", "deprecated")}})
+        # a service: header comments of the two sections, kinds chosen differently so that the halves cannot be confused
+        script = [("on_header_comment", ("DOC-REQ",))] + pre + [("on_directive", (3, "sealed", None)), ("on_service_response_marker", ()), ("on_header_comment", ("DOC-RSP",)), ("on_directive", (6, "union", None)), ("on_directive", (7, "extent", ("Rational", 64)))]
+        r = B.run_builder(ctx, script, allow_unregulated=True)
+        ctx.count()
+        if r.raised:
+            raise AnalysisError("finalize of a service raised %s at %s" % (r.raised, r.raised_at))
+        leafs = [(k, kw) for k, kw in r.ctor_log if k in ("StructureType", "UnionType")]
+        svc = [kw for k, kw in r.ctor_log if k == "ServiceType"]
+        if any(kw.get("deprecated") is not deprecated for _, kw in leafs) or len(leafs) != 2:
+            bad_dep.append({"deprecated directive": deprecated, "halves": [(k, kw.get("deprecated")) for k, kw in leafs]})
+        ok = len(svc) == 1 and len(leafs) == 2
+        if ok:
+            rq, rs = svc[0].get("request"), svc[0].get("response")
+            inner = lambda x: getattr(x, "inner_type", x)  # noqa: E731
+            ok = getattr(inner(rq), "_kind_", None) == "StructureType" and getattr(rq, "_kind_", None) == "StructureType" and getattr(inner(rs), "_kind_", None) == "UnionType" and getattr(rs, "_kind_", None) == "DelimitedType"
+            ok = ok and str(getattr(rq, "full_name", "")).endswith(".Request") and str(getattr(rs, "full_name", "")).endswith(".Response")
+            if ok and (getattr(inner(rq), "doc", None) != "DOC-REQ" or getattr(inner(rs), "doc", None) != "DOC-RSP"):
+                bad_doc.append({"request doc": getattr(inner(rq), "doc", None), "response doc": getattr(inner(rs), "doc", None)})
+        if not ok:
+            bad_svc.append({"constructed": [(k, kw.get("name")) for k, kw in leafs], "service": {k: getattr(v, "full_name", v) for k, v in (svc[0].items() if svc else [])}})
+    mk = b.methods.get("_make_composite") or fin
+    ctx.check(not bad_msg and not bad_doc, mk.short, "attributes, doc and deprecation reach the composite", "the model's attributes and header comment are those collected by the schema builder", mk.where(), (bad_msg + bad_doc)[:3])
+    ctx.check(not bad_dep, fin.short, "deprecated flag on every composite", "@deprecated marks every part of the definition", fin.where(), bad_dep[:2])
+    ctx.check(not bad_svc, fin.short, "ServiceType(request=<first schema>, response=<second schema>)", "the part before `---` is the request, the part after it the response", fin.where(), bad_svc[:2])
 
 
 def rule_r5(ctx: Ctx, a: Automaton) -> None:
